@@ -73,7 +73,7 @@ def where(tb):
     return loc
 
 
-def validate(text, want_997=True, want_html=False, want_xml=False, charset=None, src=None):
+def validate(text, want_997=True, want_html=False, want_xml=False, charset=None, src=None, param=None, map_path=None):
     import pyx12.error_handler
     import pyx12.params
     import pyx12.x12n_document
@@ -85,7 +85,8 @@ def validate(text, want_997=True, want_html=False, want_xml=False, charset=None,
         def __init__(self, *a, **k):
             orig_cls.__init__(self, *a, **k)
             captured.append(self)
-    param = pyx12.params.params()
+    if param is None:
+        param = pyx12.params.params()
     if charset:
         param.set('charset', charset)
     fd997 = io.StringIO() if want_997 else None
@@ -100,7 +101,7 @@ def validate(text, want_997=True, want_html=False, want_xml=False, charset=None,
     try:
         try:
             r.verdict = pyx12.x12n_document.x12n_document(param, src if src is not None else io.StringIO(text),
-                                                          fd997, fdhtml, fdxml, None, None, cb)
+                                                          fd997, fdhtml, fdxml, None, map_path, cb)
         except Exception as ex:
             r.verdict = None
             f, fn = where(ex.__traceback__)
